@@ -408,8 +408,14 @@ def check_case(qt, mb, out_bytes, stats, desc):
         V('C05:stored-length', f'sg{gi} {nm}: {err}')
         continue
       if tout.type == F16:
-        want = np.array([struct.unpack('<e', struct.pack('<e', float(x)))[0] for x in orig.flatten()],
-                        dtype=np.float16).reshape(orig.shape)
+        def rne16(x):
+          # IEEE round-to-nearest-even to binary16 (struct refuses exactly the
+          # values whose rounding overflows: those round to +-inf)
+          try:
+            return struct.unpack('<e', struct.pack('<e', float(x)))[0]
+          except OverflowError:
+            return float('inf') if x > 0 else float('-inf')
+        want = np.array([rne16(x) for x in orig.flatten()], dtype=np.float16).reshape(orig.shape)
         if not np.array_equal(vals.view(np.uint16), want.view(np.uint16)):
           V('C05:float16-not-rne', f'sg{gi} {nm}')
         continue
@@ -510,10 +516,28 @@ def main():
       done += 1
       yield mb, qt, stats, desc, dict(info, real_stats=True, directed='overflowing-calibration')
 
+  def directed_fp16_range(n):
+    """fp16 weight-only on constants around and beyond the float16 range"""
+    for _ in range(n):
+      saved = gg.CONST_KINDS
+      gg.CONST_KINDS = ['huge', 'huge', 'normal', 'tiny']
+      try:
+        mb, info = gg.gen_model(rng, max_ops=rng.choice([2, 3, 4]),
+                                op_weights=['FULLY_CONNECTED', 'CONV_2D', 'DEPTHWISE_CONV_2D',
+                                            'EMBEDDING_LOOKUP', 'TRANSPOSE_CONV', 'TANH'])
+      finally:
+        gg.CONST_KINDS = saved
+      qt = quantizer.Quantizer(bytearray(mb))
+      desc = gr.apply_rules(qt, [('.*', '*', gr.named_configs()['fp16'][0], 'fp16')])
+      if not desc:
+        continue
+      yield mb, qt, None, desc, dict(info, real_stats=True, directed='fp16-range')
+
   import itertools
   for mb, qt, stats, desc, info in itertools.chain(
       cg.gen_cases(rng, n_models), directed_shared(1500 if tier == 'thorough' else 120),
-      directed_overflow(12 if tier == 'thorough' else 3)):
+      directed_overflow(12 if tier == 'thorough' else 3),
+      directed_fp16_range(300 if tier == 'thorough' else 30)):
     dist['cases'] += 1
     if info.get('directed'):
       dist['directed:' + info['directed']] += 1
